@@ -111,16 +111,25 @@ const ENDCHAR: u8 = 14;
 /// The CFF table whose glyph 1 is `charstring`.
 pub fn cff_table(charstring: &[u8]) -> Vec<u8> {
     let cat = |parts: &[&[u8]]| parts.concat();
-    let gsubrs = index(&[
-        cat(&[&num(-107), &[CALLGSUBR]]),            // g0: call g0
-        vec![RETURN],                                // g1
-        cat(&[&num(-107), &[CALLSUBR], &[RETURN]]),  // g2: call l0
-    ]);
-    let lsubrs = index(&[
-        cat(&[&num(-107), &[CALLSUBR]]),             // l0: call l0
-        vec![RETURN],                                // l1
-        cat(&[&num(-107), &[CALLGSUBR], &[RETURN]]), // l2: call g0
-    ]);
+    cff_table_with(
+        charstring,
+        &[
+            cat(&[&num(-107), &[CALLGSUBR]]),            // g0: call g0
+            vec![RETURN],                                // g1
+            cat(&[&num(-107), &[CALLSUBR], &[RETURN]]),  // g2: call l0
+        ],
+        &[
+            cat(&[&num(-107), &[CALLSUBR]]),             // l0: call l0
+            vec![RETURN],                                // l1
+            cat(&[&num(-107), &[CALLGSUBR], &[RETURN]]), // l2: call g0
+        ],
+    )
+}
+
+/// The CFF table with explicit global / local subroutine lists (subr i is called with operand i − 107).
+pub fn cff_table_with(charstring: &[u8], gsubr_list: &[Vec<u8>], lsubr_list: &[Vec<u8>]) -> Vec<u8> {
+    let gsubrs = index(gsubr_list);
+    let lsubrs = index(lsubr_list);
     let header = vec![1u8, 0, 4, 4];
     let name = index(&[b"V".to_vec()]);
     let strings = index(&[]);
@@ -169,6 +178,15 @@ impl Parts {
         let maxp = vec![0, 0, 0x50, 0, 0, 2];
         let hmtx = vec![0x02, 0x58, 0, 0, 0x02, 0x58, 0, 0];
         Parts { head, hhea, maxp, hmtx }
+    }
+    /// OTTO font around an explicit CFF table
+    pub fn build_with_table(&self, cff: Vec<u8>) -> Vec<u8> {
+        let mut fb = FontBuilder::new();
+        for (tag, data) in self.metric_tables() {
+            fb.add_raw(tag, data);
+        }
+        fb.add_raw(Tag::new(b"CFF "), cff);
+        fb.build()
     }
     pub fn build(&self, charstring: &[u8]) -> Vec<u8> {
         let mut fb = FontBuilder::new();
